@@ -939,6 +939,12 @@ func (g *G) matrix() *yaml.Node {
 			g.feat("matrix-setup-map")
 			du := map[string]bool{}
 			var dp []ent
+			if g.coin("mixed-anon", 5) {
+				// the anonymous dimension written explicitly (key "") next to named ones
+				dims = append(dims, "")
+				dp = append(dp, ent{key: "", gen: func() *yaml.Node { return g.valueList("dimval", 1) }})
+				g.feat("matrix-mixed-anonymous-named")
+			}
 			for i, c := 0, g.intn("ndims", 1, 3); i < c; i++ {
 				d, ok := g.dimName(du)
 				if !ok {
@@ -965,7 +971,7 @@ func (g *G) matrix() *yaml.Node {
 						}
 						var wp []ent
 						for _, d := range dims {
-							if d == "" {
+							if d == "" && len(dims) == 1 {
 								continue
 							}
 							wp = append(wp, ent{key: d, gen: func() *yaml.Node { return g.withScalar() }})
